@@ -135,6 +135,7 @@ func init() {
 			{Rule: "EFF-4", Floors: map[string]int{"gate": 6, "validate": 2, "validate-call": 1, "encode": 12, "forward": 1}},
 			{Rule: "EFF-5", Floors: map[string]int{"path": 3, "target": 2}},
 			{Rule: "EFF-2"},
+			{Rule: "TAB-6", Filter: and(func(o Ob) bool { return o.Role == "grower-flag" || (o.Role == "factory" && strings.Contains(o.Construct, "grower factory")) }, cfgIs("D"))},
 		},
 		Decides:    "on all mkdir and verify routes (Markdown/root × simple/massive) name validation is switched on before growing, the stage runs only after growing succeeded, validatePath rejects '/' in names and invalid paths and is guarded by nothing but the validation flag, the grower is never the no-op on these routes, every filesystem path is filepath.Join(targetDir, node path) with targetDir fed from WithTargetDir, and creation happens only inside the mkdirer.",
 		NotDecided: "what path.Join / fs.ValidPath accept as values (a child named '.' or a '..' that path.Join resolves inside the tree passes validation), symlink escapes, OS behaviour.",
@@ -144,7 +145,7 @@ func init() {
 			{Rule: "EFF-1", Filter: role("entry-readonly", "cli-readonly")},
 			{Rule: "EFF-3", Floors: map[string]int{"gate": 4, "cli-gate": 2}},
 			{Rule: "EFF-2"},
-			{Rule: "TAB-6", Filter: and(role("factory", "factory-args", "grower-flag"), cfgIs("D")), Floors: map[string]int{"factory": 4, "grower-flag": 2}},
+			{Rule: "TAB-6", Filter: and(func(o Ob) bool { return o.Role == "factory" || o.Role == "factory-args" || o.Role == "grower-flag" }, cfgIs("D")), Floors: map[string]int{"factory": 4, "grower-flag": 2}},
 			{Rule: "TAB-3", Filter: and(role("pred", "users", "ext"), cfgIs("D"))},
 			{Rule: "PAIR-5", Filter: cfgIs("D")},
 			{Rule: "SIB-3", Filter: and(role("report", "row"), cfgIs("D"), funcHas("olorize"))},
@@ -160,6 +161,8 @@ func init() {
 			{Rule: "ERR-1", Filter: funcHas("Mkdirer", "mkdir")},
 			{Rule: "TAB-3", Filter: cfgIs("D"), Floors: map[string]int{"pred": 1, "users": 1, "kind": 1}},
 			{Rule: "SIB-4", Filter: funcHas("makeDirectoriesAndFiles")},
+			{Rule: "GLOB-3", Filter: and(cfgIs("D"), constructHas("setPath"))},
+			{Rule: "C01-SEL", Filter: and(role("path"), cfgIs("D"))},
 		},
 		Decides:    "every creating call is dominated by the not-exists side of a test that stats every root and whose exists side yields the path-exists error; creation happens only in the mkdirer; created paths are Join(targetDir, node path); every filesystem error (MkdirAll, Create, Close) is returned.",
 		NotDecided: "the exact set of entries created for every forest, file-vs-directory choice as a value (see TAB-3 when claimed), OS refusals, pre-existing state other than roots.",
@@ -169,10 +172,12 @@ func init() {
 			{Rule: "EFF-1", Filter: and(role("entry-readonly", "cli-readonly"), funcHas("Verify", "actionVerify"))},
 			{Rule: "EFF-4", Filter: and(role("gate", "encode"), funcHas("erify"))},
 			{Rule: "EFF-5", Filter: funcHas("Verifier")},
-			{Rule: "ERR-1", Filter: funcHas("Verifier", "verify")},
+			{Rule: "ERR-1", Filter: funcHas("Verifier", "verify", "sendErr", "handlePipelineErr")},
 			{Rule: "TAB-4", Floors: map[string]int{"verdict": 2, "sets": 2}},
 			{Rule: "CONC-4", Filter: and(role("access"), funcHas("erifier"))},
 			{Rule: "SIB-4", Filter: funcHas("fillDirsMarkdown")},
+			{Rule: "GLOB-3", Filter: and(cfgIs("D"), constructHas("setPath"))},
+			{Rule: "C01-SEL", Filter: and(role("path"), cfgIs("D"))},
 		},
 		Decides:    "verify never reaches a filesystem-mutating call; names are validated and paths assembled before verifying; looked-up paths are Join(targetDir, node path) like the mkdirer's; walk errors are returned.",
 		NotDecided: "soundness/completeness of the reported path sets for every directory state, the 'first root that differs' listing, map-iteration order of the report.",
@@ -198,7 +203,10 @@ func init() {
 			{Rule: "GLOB-3", Filter: cfgIs("D"), Floors: map[string]int{"accumulate": 4}},
 			{Rule: "C01-NAME", Floors: map[string]int{"name": 5}},
 			{Rule: "TAB-6", Filter: and(role("factory-args", "grower-formats"), cfgIs("D"))},
+			{Rule: "TAB-6", Filter: and(func(o Ob) bool { return o.Role == "factory" }, cfgIs("D"), constructHas("grower factory"))},
 			{Rule: "PARSE-1", Floors: map[string]int{"learn": 4}},
+			{Rule: "TAB-1", Filter: role("parse-always")},
+			{Rule: "SIB-5", Filter: and(cfgIs("D"), constructHas("classified"))},
 		},
 		Decides:    "the line each printer writes is name+newline for a root and branch+space+name+newline otherwise; the connector/continuation strings are the last/intermediate ones selected by isLastOfHierarchy of the node / of the ancestor, appended / prepended, over ancestors from the parent up to but excluding the root; isLastOfHierarchy compares with the parent's last child; branch formats travel from the options to the grower fields of the same name; traversals are pre-order over children in order; equally named siblings are merged (lookup before insert) and links are bidirectional one level apart; the per-node cache is cleared before it is rebuilt; the item text loses at most one leading space; output errors are returned.",
 		NotDecided: "the parser's indentation arithmetic and unit inference (a wrong level number is invisible to these rules), the stack discipline that finds the nearest open node one level up, Unicode/bullet characters inside names, equality of the iterator and non-iterator output paths beyond SIB-5.",
@@ -233,7 +241,8 @@ func init() {
 	}
 	props["C04"] = &PropSpec{ID: "C04",
 		Uses: []Use{
-			{Rule: "TAB-6", Filter: role("tags", "encode", "factory"), Floors: map[string]int{"tags": 4, "encode": 2}},
+			{Rule: "TAB-6", Filter: role("tags", "encode", "factory"), Floors: map[string]int{"tags": 4, "encode": 2, "factory-nop": 2}},
+			{Rule: "EFF-4", Filter: role("encode-kept"), Floors: map[string]int{"encode-kept": 4}},
 			{Rule: "PAIR-6", Floors: map[string]int{"encoder": 10}},
 			{Rule: "SIB-4", Filter: funcHas("toFormattedNode", "toJSONNode"), Floors: map[string]int{"traversal": 2}},
 			{Rule: "ERR-1", Filter: and(scope("lib"), funcHas("formattedSpreader", "jsonSpreader"))},
@@ -250,7 +259,9 @@ func init() {
 			{Rule: "SIB-4", Filter: funcHas("walkNode", "assemble"), Floors: map[string]int{"traversal": 3}},
 			{Rule: "NIL-3", Filter: role("iter")},
 			{Rule: "C01-SEL", Filter: and(role("path"), cfgIs("D"))},
-			{Rule: "EFF-4", Filter: and(role("encode"), funcHas("Walk"))},
+			{Rule: "GLOB-3", Filter: cfgIs("D")},
+			{Rule: "GLOB-1", Filter: and(role("sink"), cfgIs("D"), funcHas("alk"))},
+			{Rule: "EFF-4", Filter: and(func(o Ob) bool { return o.Role == "encode" }, funcHas("Walk"))},
 			{Rule: "ERR-1", Filter: and(scope("lib"), funcHas("alk"))},
 		},
 		Decides:    "Row/Branch/Name/Level/Path/HasChild read exactly the node facts the printer uses (Row = Branch+space+Name, Name for a root); walkers visit pre-order in child order; the callback's first error is returned as the same value from every level (including the loop over roots) with no further callback reachable; iterators never call yield after a false result or a yielded error unless consumed through iter.Pull2 only; the simple tree is always selected for the iterator form; branches are grown (default encoding forced) before walking; path elements are placed root-first.",
@@ -267,7 +278,7 @@ func init() {
 	props["C15"] = &PropSpec{ID: "C15",
 		Uses: []Use{
 			{Rule: "TAB-2", Floors: map[string]int{"table": 2, "loop": 1, "split": 2}},
-			{Rule: "TAB-1", Filter: role("blank")},
+			{Rule: "TAB-1", Filter: role("blank", "parse-always")},
 			{Rule: "PARSE-1"},
 			{Rule: "SIB-5", Filter: func(o Ob) bool { return strings.Contains(o.Construct, "blank lines") || strings.Contains(o.Construct, "classified") }},
 		},
